@@ -86,7 +86,7 @@ package fastcgi
 //@ ghost stdinW int
 //@ func (*FCGIClient).writeBeginRequest
 //@   requires c != nil
-//@   modifies ghost:began, E:uint8
+//@   modifies ghost:began, E:uint8, header.Version, header.Type, header.ID, header.ContentLength, header.PaddingLength
 //@   ensures began == old(began) + 1
 //@ func (*FCGIClient).writePairs
 //@   requires c != nil
@@ -103,7 +103,7 @@ package fastcgi
 //@   ensures closed == old(closed) + 1
 //@ func (*FCGIClient).Do
 //@   requires c != nil && began == 0 && paramsSent == 0 && copied == 0 && closed == 0
-//@   modifies ghost:began, ghost:paramsSent, ghost:copied, ghost:closed, ghost:stdinW, E:uint8
+//@   modifies ghost:began, ghost:paramsSent, ghost:copied, ghost:closed, ghost:stdinW, E:uint8, header.Version, header.Type, header.ID, header.ContentLength, header.PaddingLength
 //@   at call newWriter before [body_stream_is_stdin] arg1 == Stdin && arg0 == c
 //@   at call newWriter do stdinW = result
 //@   at call io.Copy before [the_callers_reader_itself_into_the_stdin_stream_after_the_params] arg1 == old(req) && arg0 == stdinW && began == 1 && paramsSent == 1 && closed == 0 && copied == 0
